@@ -546,7 +546,13 @@ def _parse_parameter_value_element(lexer: PipelineLexer) -> ParameterType:
             # string literals are converted to unescaped strings
             str_token = StringLiteral.from_span(span)
             assert str_token is not None
-            return str_token.string_contents
+            try:
+                return str_token.string_contents
+            except UnicodeDecodeError:
+                raise ArgSpecParseError(
+                    SpecToken(SpecTokenKind.STRING_LIT, span),
+                    "String value is not valid UTF-8",
+                )
         case Token(kind=SpecTokenKind.NUMBER, span=span):
             # NUMBER is both float and int
             # if the token contains a `.` it's a float
